@@ -38,14 +38,20 @@ VARIABLES
     content,  \* message id -> [data, attrs], learnt from Publish / first delivery
     ptime,    \* message id -> publish time string, learnt from the first delivery
     gone,     \* inv events of calls their client abandoned (their requests may still be processed)
+    httpLast, \* <<subscription incarnation, message>> -> status the push endpoint answered last (-1: none)
+    delT,     \* subscription incarnation -> instant its deletion completed
     stats     \* [events |-> validated events, hist |-> histories accepted so far, viol |-> ...]
 
-tvars == <<coreVars, l, skip, hdr, pend, tok, content, ptime, gone, stats>>
+tvars == <<coreVars, l, skip, hdr, pend, tok, content, ptime, gone, httpLast, delT, stats>>
 
 JudgeLate == "clock" \notin DOMAIN hdr.meta \/ hdr.meta.clock = "paused"
 \* Light histories (very large backlogs): the actors report sizes only and the model abstains
 \* from everything but the batch-limit guards of C15.
 Light == "light" \in DOMAIN hdr.meta /\ hdr.meta.light
+\* How much earlier than computed a recorded deadline / expiry may lie: the recording granularity
+\* under the paused clock; under a real clock the handler's instant and the event's instant are
+\* read at different moments of a pre-emptible thread.
+Early == IF JudgeLate THEN Gran ELSE 2000
 ProjOf == IF "proj" \in DOMAIN hdr.meta THEN hdr.meta.proj ELSE Empty
 
 (***************************************************************************)
@@ -204,7 +210,11 @@ RetGuards(c, e) ==
         { G("C10", e.code = "NOT_FOUND" => None \in TopicLookups(W, p.topic)),
           G("C10", e.code = "ALREADY_EXISTS" => \E w \in W : w.k = "m.cs" /\ w.name = p.name /\ ~w.ok),
           G("C10", e.code = "INVALID_ARGUMENT" =>
-                       (p.name \in DOMAIN ProjOf /\ p.topic \in DOMAIN ProjOf /\ ProjOf[p.name] # ProjOf[p.topic])),
+                       \/ (p.name \in DOMAIN ProjOf /\ p.topic \in DOMAIN ProjOf /\ ProjOf[p.name] # ProjOf[p.topic])
+                       \/ ~p.push_http),
+          \* an unsupported push endpoint is a malformed field (C17): rejected, nothing created
+          G("C17", ~p.push_http => e.code = "INVALID_ARGUMENT"),
+          G("C17", ~p.push_http => ~\E w \in W : w.k = "m.cs" /\ w.name = p.name),
           G("C10", e.code = "OK" =>
                        \E w \in W : /\ w.k = "m.cs" /\ w.name = p.name /\ w.ok
                                     /\ w.ti \in TopicLookups(W, p.topic)
@@ -292,7 +302,7 @@ PushNack(si, e) == S[si].push # "" /\ \A i \in 1..Len(e.mods) : e.mods[i].dl = N
 
 ModsOf(si, e) ==
     LET cands == ModCandidates(si, e)
-        good  == {cd \in cands : AllHold(ModGuards(S[si], ModsWith(e, cd)))
+        good  == {cd \in cands : AllHold(ModGuards(S[si], ModsWith(e, cd), Early))
                                   /\ \A i \in 1..Len(e.mods) : (e.mods[i].dl = None) <=> (cd.secs[i] = 0)}
     IN IF good # {} THEN ModsWith(e, CHOOSE cd \in good : TRUE)
        ELSE IF cands # {} THEN ModsWith(e, CHOOSE cd \in cands : TRUE)
@@ -306,14 +316,56 @@ ModCallGuards(si, e) ==
 (***************************************************************************)
 (* Guards and effect of one event.                                         *)
 (***************************************************************************)
+SiKnown(e) == e.si \in DOMAIN S
+
+(***************************************************************************)
+(* HTTP push (C14).                                                        *)
+(***************************************************************************)
+PushSuccess == {102, 200, 201, 202, 204}
+PushGrace == 1000
+\* The newest incarnation that carried the name a POST body mentions.
+SubsNamed(name) == {si \in DOMAIN S : S[si].name = name}
+NewestNamed(name) == CHOOSE si \in SubsNamed(name) : \A x \in SubsNamed(name) : x <= si
+
+HttpGuards(e) ==
+    IF SubsNamed(e.sub) = {} THEN { G("C14", FALSE) } ELSE
+    LET si == NewestNamed(e.sub) IN
+    { \* only subscriptions with a push endpoint are POSTed to
+      G("C14", S[si].push # ""),
+      \* pushing stops when the subscription is deleted (a request already on the wire may land)
+      G("C14", S[si].st = "live" \/ (si \in DOMAIN delT /\ e.t - delT[si] <= PushGrace)),
+      \* a POST is a delivery that is outstanding right now: never again after it was accepted
+      G("C14", S[si].st = "live" => e.m \in LeasedMsgs(S[si])),
+      \* JSON naming the subscription, base64 data, the message id (in both spellings)
+      G("C14", e.method = "POST" /\ e.json /\ e.b64ok /\ e.same_id),
+      G("C09", e.m \in DOMAIN pubs),
+      G("C09", e.m \in DOMAIN content => content[e.m] = [data |-> e.data, attrs |-> e.attrs]) }
+
+\* Is there a client call (unary or on a stream) that asks for exactly this acknowledgement?
+ClientAckPending(si, acks) ==
+    \/ \E c \in DOMAIN pend : pend[c].e.op = "Ack" /\ pend[c].e.sub = S[si].name /\ pend[c].e.acks = acks
+    \/ \E g \in gone : g.op = "Ack" /\ g.sub = S[si].name /\ g.acks = acks
+    \/ \E c \in DOMAIN pend : pend[c].e.op = "StreamOpen" /\ pend[c].e.sub = S[si].name
+                                 /\ \E j \in 1..Len(pend[c].ctrl) : pend[c].ctrl[j].acks = acks
+LastAnswer(si, m) == IF <<si, m>> \in DOMAIN httpLast THEN httpLast[<<si, m>>] ELSE None
+
+\* The push dispatcher acknowledges only what the endpoint accepted, and gives back (nacks)
+\* only what it did not accept.
+PushAckGuards(e) ==
+    IF ~SiKnown(e) \/ S[e.si].push = "" \/ ClientAckPending(e.si, e.acks) THEN {} ELSE
+    { G("C14", \A i \in 1..Len(e.acks) : e.acks[i] \in DOMAIN S[e.si].lease =>
+                  LastAnswer(e.si, S[e.si].lease[e.acks[i]].m) \in PushSuccess) }
+PushNackGuards(e) ==
+    IF ~SiKnown(e) \/ S[e.si].push = "" \/ ModCandidates(e.si, e) # {} THEN {} ELSE
+    { G("C14", \A i \in 1..Len(e.mods) : e.mods[i].ack \in DOMAIN S[e.si].lease =>
+                  LastAnswer(e.si, S[e.si].lease[e.mods[i].ack].m) \notin PushSuccess) }
+
 LateGuards(e) ==
     { G("BIND", e.t >= now),
       G("C04", JudgeLate =>
             \A si \in {x \in DOMAIN S : S[x].st = "live"} : \A a \in DOMAIN S[si].lease :
                 \/ e.t <= S[si].lease[a].hi
                 \/ (e.k = "s.expire" /\ e.si = si /\ a \in SeqSet(e.acks))) }
-
-SiKnown(e) == e.si \in DOMAIN S
 
 EvGuards(e) ==
     CASE e.k = "m.ct" -> MgrCreateTopic_G(e.name, e.ti, e.ok)
@@ -347,23 +399,23 @@ EvGuards(e) ==
              THEN SubStateGuards(IF e.ids = <<>> THEN S[e.si] ELSE SubAfterPost(S[e.si], e.ids), e.st) ELSE {})
       [] e.k = "s.pull" ->
             SubPull_G(e.si, e.max, e.out, e.st.backlog, e.t,
-                      SiKnown(e) /\ \E g \in gone : g.op \in {"Pull", "StreamOpen"} /\ g.sub = S[e.si].name) \cup
+                      SiKnown(e) /\ \E g \in gone : g.op \in {"Pull", "StreamOpen"} /\ g.sub = S[e.si].name, Early) \cup
             (IF SiKnown(e)
              THEN SubStateGuards(IF S[e.si].st = "live" THEN SubAfterPull(S[e.si], e.out, e.st.backlog, e.t) ELSE S[e.si], e.st)
              ELSE {})
       [] e.k = "s.ack" ->
-            SubAck_G(e.si, SeqSet(e.acks)) \cup
+            SubAck_G(e.si, SeqSet(e.acks)) \cup PushAckGuards(e) \cup
             (IF SiKnown(e)
              THEN SubStateGuards(IF S[e.si].st = "live" THEN SubAfterAck(S[e.si], SeqSet(e.acks)) ELSE S[e.si], e.st)
              ELSE {})
       [] e.k = "s.mod" ->
             IF ~SiKnown(e) THEN { G("BIND", FALSE) } ELSE
             LET mods == ModsOf(e.si, e) IN
-            SubModify_G(e.si, mods, e.st.backlog) \cup ModCallGuards(e.si, e) \cup
+            SubModify_G(e.si, mods, e.st.backlog, Early) \cup ModCallGuards(e.si, e) \cup PushNackGuards(e) \cup
             SubStateGuards(IF S[e.si].st = "live"
                            THEN [SubAfterMods(S[e.si], mods) EXCEPT !.queue = e.st.backlog] ELSE S[e.si], e.st)
       [] e.k = "s.expire" ->
-            SubExpire_G(e.si, e.acks, e.st.backlog, JudgeLate, e.t) \cup
+            SubExpire_G(e.si, e.acks, e.st.backlog, JudgeLate, e.t, Early) \cup
             (IF SiKnown(e) /\ S[e.si].st = "live" /\ SeqSet(e.acks) \subseteq DOMAIN S[e.si].lease
              THEN SubStateGuards([SubAfterExpire(S[e.si], e.acks) EXCEPT !.queue = e.st.backlog], e.st) ELSE {})
       [] e.k = "s.stats" ->
@@ -391,6 +443,7 @@ EvGuards(e) ==
               G("C12", (e.opened /\ RacedDeletion(W, p.sub)) => ReleasedPromptly(W, p.sub, e.t)) }
       [] e.k = "ret" -> IF e.c \in DOMAIN pend THEN RetGuards(e.c, e) ELSE { G("BIND", FALSE) }
       [] e.k \in {"cancel", "lret"} -> {}
+      [] e.k = "http" -> HttpGuards(e)
       [] e.k = "quiet" ->
             \* C06: at rest, no message sits in the backlog of a live subscription while a
             \* consumer that can take it is waiting on that subscription
@@ -412,6 +465,10 @@ EvGuards(e) ==
               \* everything a live subscription was ever posted has been delivered and acknowledged
               G("C01", \A si \in DOMAIN S : (S[si].st = "live" /\ "drained" \in DOMAIN hdr) =>
                             (S[si].posted \subseteq S[si].acked /\ S[si].inbox = <<>>)),
+              \* push: every message of a live push subscription was POSTed until accepted
+              G("C14", ("push" \in DOMAIN hdr.meta /\ hdr.meta.push) =>
+                            \A si \in DOMAIN S : (S[si].st = "live" /\ S[si].push # "" /\ S[si].push # "dead") =>
+                                (S[si].posted \subseteq S[si].acked /\ S[si].inbox = <<>>)),
               G("C11", C11_AttachedExact),
               G("C14", C14_RegistryExact),
               G("C16", C16_Attached) }
@@ -432,7 +489,7 @@ LightGuards(e) ==
 
 LightApply(e) ==
     /\ now' = e.t
-    /\ UNCHANGED <<tmap, smap, T, S, torder, sorder, reg, pubs, tok, content, ptime, gone>>
+    /\ UNCHANGED <<tmap, smap, T, S, torder, sorder, reg, pubs, tok, content, ptime, gone, httpLast, delT>>
     /\ pend' =
          CASE e.k = "inv" -> Put(pend, e.c, [e |-> e, from |-> l, ctrl |-> <<>>])
            [] e.k \in {"ret", "cancel", "send", "lret"} -> IF e.c \in DOMAIN pend THEN Without(pend, e.c) ELSE pend
@@ -492,6 +549,8 @@ EvApply(e) ==
          ELSE IF e.k = "srecv" THEN ContentAfter(e.msgs)
          ELSE content
     /\ gone' = IF e.k = "cancel" /\ e.c \in DOMAIN pend THEN gone \cup {pend[e.c].e} ELSE gone
+    /\ httpLast' = IF e.k = "http" /\ SubsNamed(e.sub) # {} THEN Put(httpLast, <<NewestNamed(e.sub), e.m>>, e.code) ELSE httpLast
+    /\ delT' = IF e.k = "s.del1" THEN Put(delT, e.si, e.t) ELSE delT
     /\ ptime' =
          IF e.k = "ret" /\ e.code = "OK" /\ pend[e.c].e.op = "Pull" THEN PtimeAfter(e.body.msgs)
          ELSE IF e.k = "srecv" THEN PtimeAfter(e.msgs) ELSE ptime
@@ -504,6 +563,7 @@ TraceInit ==
     /\ l = 1 /\ skip = FALSE
     /\ hdr = [run |-> "none", meta |-> Empty, cap |-> 16, seed |-> 0]
     /\ pend = Empty /\ tok = Empty /\ content = Empty /\ ptime = Empty /\ gone = {}
+    /\ httpLast = Empty /\ delT = Empty
     /\ stats = [ok |-> 0, bad |-> 0, drift |-> 0]
 
 DoReset(e) ==
@@ -513,6 +573,7 @@ DoReset(e) ==
     /\ skip' = FALSE
     /\ hdr' = e
     /\ pend' = Empty /\ tok' = Empty /\ content' = Empty /\ ptime' = Empty /\ gone' = {}
+    /\ httpLast' = Empty /\ delT' = Empty
 
 TraceNext ==
     /\ l <= Len(Rec)
@@ -521,7 +582,7 @@ TraceNext ==
        IF e.k = "reset"
        THEN DoReset(e) /\ UNCHANGED stats
        ELSE IF skip
-       THEN UNCHANGED <<coreVars, skip, hdr, pend, tok, content, ptime, gone, stats>>
+       THEN UNCHANGED <<coreVars, skip, hdr, pend, tok, content, ptime, gone, httpLast, delT, stats>>
        ELSE LET gs == IF Light THEN LightGuards(e) ELSE LateGuards(e) \cup EvGuards(e)
                 bad == Fatal(gs)
             IN IF bad = {}
@@ -535,7 +596,7 @@ TraceNext ==
                ELSE /\ PrintT(<<"VIOL", ToJson([run |-> hdr.run, i |-> e.i, k |-> e.k, line |-> l, props |-> bad])>>)
                     /\ skip' = TRUE
                     /\ stats' = [stats EXCEPT !.bad = @ + 1]
-                    /\ UNCHANGED <<coreVars, hdr, pend, tok, content, ptime, gone>>
+                    /\ UNCHANGED <<coreVars, hdr, pend, tok, content, ptime, gone, httpLast, delT>>
 
 TraceSpec == TraceInit /\ [][TraceNext]_tvars
 
